@@ -850,7 +850,8 @@ static void explore_states (int depth) {
 static const char *salt_names[] = { "f", "g", "zz_absent", "tramp_f", "fp_f", "upB_f", "upC_f", "upD_f", "upE_f", "viaB_f", "viaC_f", "viaP_f", "viaQ_f",
                                     "setv_A", "setv_B", "setv_C", "setv_D", "setv_E", "setv_P", "setv_Q", "co_f", "co_g", "co_z", "deep_f", "deep_g" };
 typedef char salt_names_size_check[(sizeof salt_names / sizeof salt_names[0]) == NSALTN ? 1 : -1];
-static void hold (const char *s) { if (nheld < 1200) held[nheld++] = make_shared_string (s); }
+/* two references each: one unowned release by the driver (a finding) must not free a string the harness still reads */
+static void hold (const char *s) { if (nheld < 1200) { held[nheld] = make_shared_string (s); ref_string (held[nheld]); nheld++; } }
 static void apply_salt (int s) {
   if (s & 1) get_id_number ();
   for (int i = 0; i < NSALTN; i++) hold (salt_names[(s & 2) ? NSALTN - 1 - i : i]);     /* refs held until release_salt() */
@@ -863,7 +864,7 @@ static void apply_salt (int s) {
   for (int i = 0; i < NNAME; i++) sname[i] = make_shared_string (name_txt[i]);
 }
 static void release_salt (void) {
-  for (int i = 0; i < nheld; i++) free_string (held[i]);
+  for (int i = 0; i < nheld; i++) { free_string (held[i]); free_string (held[i]); }
   nheld = 0;
   for (int i = 0; i < NNAME; i++) { free_string (sname[i]); sname[i] = 0; }
 }
@@ -898,6 +899,18 @@ static void cleanup_files (const char *pre1, const char *pre2, int disk) {
   }
 }
 
+/* stderr of this execution is vx's memfd: has the sanitizer written anything since `from`? */
+static off_t stderr_pos (void) { return lseek (2, 0, SEEK_END); }
+static int sanitizer_text_since (off_t from) {
+  static char buf[65536];
+  off_t end = lseek (2, 0, SEEK_END);
+  if (end <= from) return 0;
+  ssize_t n = pread (2, buf, sizeof buf - 1, from);
+  if (n <= 0) return 0;
+  buf[n] = 0;
+  return strstr (buf, "AddressSanitizer") || strstr (buf, "runtime error") ? 1 : 0;
+}
+
 static void elem (long idx) {
   salt = (int) (idx % opt_salts);
   decode_set (idx / opt_salts, &S);
@@ -921,7 +934,16 @@ static void elem (long idx) {
   if (disk) { snprintf (pre1, sizeof pre1, "c07s%ld", idx); snprintf (pre2, sizeof pre2, "c07t%ld", idx); mkdir (pre1, 0755); mkdir (pre2, 0755); }
   else { snprintf (pre1, sizeof pre1, "c07s"); snprintf (pre2, sizeof pre2, "c07t"); }
   cur_pre = pre1;
+  off_t err0 = stderr_pos ();
   int rej = load_set (pre1, opt_bin, blue, disk);
+  if (S.graph == 5 && sanitizer_text_since (err0)) {
+    /* the compiler damaged memory while building this program (reported by vx from the sanitizer text): the program
+       tables cannot be trusted, calling through them only multiplies the reports */
+    vx_obs ("sanitizer report while compiling: element abandoned");
+    vx_scan_now ();
+    cleanup_files (pre1, pre2, disk);
+    return;
+  }
   char clog1[4000]; snprintf (clog1, sizeof clog1, "%s", clog_txt); strip_pre (clog1, pre1);
   vx_count (0, 1);
   if ((rej >= 0) != (mrej >= 0) || (rej >= 0 && rej != mrej)) {
